@@ -15,7 +15,7 @@ ValidateFails(e, ch) ==
   LET c == e.cls  w == e.seq  r == e.res
       t == Typing(c.toks, c.enz, c.role, w)
   IN Chk("C06:SameAsFresh", Pub(r) = Pub(e.fresh) /\ r.exc = e.fresh.exc)
-     \cup (IF IsNucWord(w) /\ r.exc = ""
+     \cup (IF e.circ /\ IsNucWord(w) /\ r.exc = ""
            THEN Chk("C06:VerdictIndependent", r.valid = t.ok /\ (t.ok /\ r.valid => r.up = t.up /\ r.down = t.down /\ r.tgt = t.tgt))
            ELSE {})
      \* the slot of the asked class now holds its own structure; no other slot changed
